@@ -619,8 +619,13 @@ def judge(ctx: Ctx, traces: List[dict], label: str) -> None:
             raise MachineryError(f"harness bookkeeping broke ({v.clause}) in {t['name']} at event {v.pos}")
         ev = t["events"][v.pos] if v.pos < len(t["events"]) else {}
         plan = t.get("plan", {})
-        sig = (f"{v.clause}: {cfg['side']} codec={plan.get('codec')} framing={plan.get('framing')} "
-               f"kind={plan.get('kind', t['src'])}")
+        if v.clause == "TruncatedStreamCleanEof":
+            sig = f"{v.clause}: codec={plan.get('codec')}"
+        elif v.clause.startswith("StalePause"):
+            sig = f"{v.clause}: framing={plan.get('framing')} coded={plan.get('codec') != 'identity'}"
+        else:
+            sig = (f"{v.clause}: {cfg['side']} codec={plan.get('codec')} framing={plan.get('framing')} "
+                   f"kind={plan.get('kind', t['src'])} limit={cfg['limit']}")
         detail = {"trace": {"cfg": cfg, "src": t["src"], "name": t["name"],
                             "events": t["events"][max(0, v.pos - 30):v.pos + 1]},
                   "plan": plan, "failed_at": v.pos, "event": ev, "label": label}
@@ -741,6 +746,7 @@ class Replay(Exec):
 
 
 _act_re = __import__("re").compile(r"(\w+)(?:\((.*)\))?$")
+_send_re = __import__("re").compile(r"NetSend\(<<([0-9, ]*)>>,\s*(TRUE|FALSE)\)")
 
 
 def replay_behaviour(ctx: Ctx, loop: steploop.StepLoop, beh: List[Any], consts: Dict[str, Any], src: str) -> Optional[dict]:
@@ -757,8 +763,10 @@ def replay_behaviour(ctx: Ctx, loop: steploop.StepLoop, beh: List[Any], consts: 
     prev_inbox_len = 0
     for lbl, st in beh[1:]:
         if lbl.startswith("NetSend"):
-            piece = st["inbox"][-1]
-            sends.append((list(piece["u"]), bool(piece["fin"])))
+            mm = _send_re.match(lbl)
+            if not mm:
+                raise MachineryError(f"cannot parse model action {lbl!r}")
+            sends.append(([int(v) for v in mm.group(1).split(",") if v.strip()], mm.group(2) == "TRUE"))
     extra_close = framing != "eof" and not (sends and sends[-1][1])
     planned = sends + ([([1], True)] if extra_close else [])
     uc = B.UnitCodec(codec, UNIT, rng)
@@ -805,7 +813,7 @@ def replay_behaviour(ctx: Ctx, loop: steploop.StepLoop, beh: List[Any], consts: 
 
     def project_check(st: dict) -> None:
         """Refinement only: the real pipeline agrees with the model state (pc = idle)."""
-        if st.get("pc") != "idle" or x.reader is None or x.in_read or st["rexc"] or st["pst"] != "open":
+        if not st or st.get("pc") != "idle" or x.reader is None or x.in_read or st["rexc"] or st["pst"] != "open":
             return
         real = x.reader.total_bytes - x.consumed
         msize = sum(st["buf"]) * UNIT
@@ -1019,3 +1027,136 @@ def run(ctx: Ctx) -> None:
     ctx.extra["replay_action_counts"] = dict(ctx.action_cover)
     ctx.evaluations = ctx.traces
     loop.uninstall()
+
+
+# ---------------------------------------------------------------- selftest / replay
+MUTANTS: List[Tuple[str, Dict[str, Any], Tuple[str, ...]]] = [
+    ("max_length dropped from the decoder call", dict(Mode="Length", Codec="zlib", UseBudget=False),
+     ("Resident", "OneCallBudget")),
+    ("resume_reading does not re-enter the parser", dict(Mode="Chunked", Codec="zlib", ResumeReenters=False),
+     ("NoDeadlock", "Deadlock", "HeldBackImpliesPaused")),
+    ("pause not propagated to the payload parser", dict(Mode="Chunked", Codec="zlib", PauseReachesParser=False),
+     ("Resident",)),
+    ("_pending_unused_data forgotten", dict(Mode="Length", Codec="zlib", WithMembers=True, KeepPending=False, MaxPieces=2, MaxUnits=3),
+     ("NoInputLost",)),
+    ("413 test moved after the accumulation", dict(Mode="Length", Codec="zlib", Side="server", ClientMax=1,
+                                                    CheckEachChunk=False), ("MaxSize",)),
+    ("stale pause flag (code as found)", dict(Mode="Chunked", Codec="identity", ClearStalePause=False,
+                                              EofKeepsParser=False),
+     ("NoDeadlock", "NoSpuriousFailure", "HeldBackImpliesPaused", "Deadlock")),
+    ("stored payload error not raised by read", dict(Mode="Length", Codec="zlib", WithCorrupt=True, ErrChecked=False),
+     ("ErrorNotData",)),
+]
+
+
+def _good_plans() -> List[dict]:
+    data = bytes(range(97, 123)) * 9
+    enc = B.encode("gzip", data)
+    ref = B.reference("gzip", enc)
+    p1 = {"side": "client", "codec": "gzip", "framing": "chunked", "enc": enc, "ref": ref, "limit": 4,
+          "name": "selftest/gzip", "kind": "random", "gap": 0, "glue": False, "cyield": 0,
+          "chunks": [9] * 40, "cuts": [20, 41], "sched": [("pause", 3), ("read", 3)]}
+    p2 = {"side": "server", "codec": "gzip", "framing": "length", "enc": enc, "ref": ref, "limit": 8,
+          "name": "selftest/srv413", "kind": "random", "gap": 0, "glue": False, "cyield": 0, "cuts": [10],
+          "sched": [], "srvop": "read", "cms": 50}
+    return [p1, p2]
+
+
+def selftest(ctx: Ctx) -> int:
+    install_wrappers()
+    loop = steploop.new_loop()
+    ok = True
+    # (i) the monitor rejects corrupted / shortened recordings of good executions
+    good = [run_plan(loop, p) for p in _good_plans()]
+    cli, srv = good
+
+    def mutate(t: dict, fn: Callable[[dict], None]) -> dict:
+        c = copy.deepcopy(t)
+        fn(c)
+        return c
+
+    def flip_digest(t: dict) -> None:
+        reads = [e for e in t["events"] if e["ev"] == "read" and e["m"] > 0]
+        reads[-1]["k"] ^= 1
+
+    def drop_eof(t: dict) -> None:
+        t["events"] = [e for e in t["events"] if e["ev"] != "eof"]
+
+    def fat_call(t: dict) -> None:
+        next(e for e in t["events"] if e["ev"] == "dec" and e["m"] > 0)["m"] = 5 * t["cfg"]["limit"]
+
+    def fat_buffer(t: dict) -> None:
+        e = next(e for e in t["events"] if e["ev"] == "read")
+        e["obs"]["size"] = e["obs"]["high"] + 2 * t["cfg"]["limit"] + 1
+
+    def lost_byte(t: dict) -> None:
+        t["cfg"]["refLen"] += 1
+
+    def data_after_err(t: dict) -> None:
+        i = next(k for k, e in enumerate(t["events"]) if e["ev"] == "read")
+        t["events"].insert(i, dict(t["events"][i], ev="err", s="payload", n=0, m=0, k=0))
+        t["cfg"]["refOk"] = False
+        t["cfg"]["refWhy"] = "corrupt"
+
+    def srv_accumulated(t: dict) -> None:
+        next(e for e in t["events"] if e["ev"] == "srv")["k"] = 10 * t["cfg"]["cms"]
+
+    def srv_returned_more(t: dict) -> None:
+        e = next(e for e in t["events"] if e["ev"] == "srv")
+        e["s"], e["n"] = "ok", t["cfg"]["cms"] + 1
+
+    bads = [(mutate(cli, flip_digest), "WrongBytes"), (mutate(cli, drop_eof), "Stuck"),
+            (mutate(cli, fat_call), "OneCallBudget"), (mutate(cli, fat_buffer), "Resident"),
+            (mutate(cli, lost_byte), "WrongLength"), (mutate(cli, data_after_err), "DataAfterError"),
+            (mutate(srv, srv_accumulated), "MaxSizeAccumulated"), (mutate(srv, srv_returned_more), "MaxSizeReturnedMore")]
+    slim = [{"cfg": t["cfg"], "src": "selftest", "events": t["events"]} for t in good + [b for b, _ in bads]]
+    vs, _ = validate_batch("BodyFlowTrace", "BodyFlowTrace.cfg", slim)
+    for t, v in zip(good, vs[:2]):
+        print(f"good {t['name']}: ok={v.ok} clause={v.clause!r} ({v.pos}/{v.total})")
+        ok = ok and v.ok
+    for (b, want), v in zip(bads, vs[2:]):
+        print(f"corrupted recording, expected {want}: got {v.clause!r} at {v.pos}")
+        ok = ok and (v.clause == want)
+    # (ii) spec-level mutants: TLC must find the violation; the unmutated configuration must pass
+    for what, over, wants in MUTANTS:
+        o = dict(Limit=1, MaxPieces=3, MaxUnits=1)
+        o.update(over)
+        res = run_tlc("BodyFlow", write_cfg(o), workers=16, timeout=300, deadlock=True)
+        require_clean(res, "mutant " + what)
+        print(f"mutant [{what}]: TLC reports {res.violated} ({res.distinct} states)")
+        ok = ok and (res.violated in wants)
+    print("selftest", "passed" if ok else "FAILED")
+    loop.uninstall()
+    return 0 if ok else 2
+
+
+def replay(ctx: Ctx, path: str) -> int:
+    payload = json.load(open(path))
+    detail = payload.get("detail") or {}
+    plan_j = detail.get("plan")
+    if not isinstance(plan_j, dict):
+        print("replay: model counterexample only; re-run the check to reproduce")
+        for a, _s in (detail.get("trace") or [])[:60]:
+            print("   ", a)
+        return 0
+    install_wrappers()
+    loop = steploop.new_loop()
+    if "actions" in plan_j:
+        consts = dict(plan_j["consts"])
+        beh = [("Init", {})] + [(a, {}) for a in plan_j["actions"]]
+        tr = replay_behaviour(ctx, loop, beh, consts, plan_j.get("kind", "tlc-sim"))
+    else:
+        tr = run_plan(loop, plan_from_json(plan_j))
+    assert tr is not None
+    vs, _ = validate_batch("BodyFlowTrace", "BodyFlowTrace.cfg",
+                           [{"cfg": tr["cfg"], "src": tr["src"], "events": tr["events"]}])
+    v = vs[0]
+    print(f"replay of {tr['name']}: ok={v.ok} clause={v.clause!r} at event {v.pos}/{v.total}")
+    print("cfg:", tr["cfg"])
+    for e in tr["events"][max(0, v.pos - 12):v.pos + 1]:
+        print("   ", e["ev"], e["s"], e["n"], e["m"], e["k"], e["obs"])
+    loop.uninstall()
+    if not v.ok:
+        print(f"VIOLATION property=C09 replay={path}")
+        return 1
+    return 0
